@@ -40,10 +40,8 @@ def tlc_rec(ctx):
 
 
 def tlc_score(ctx):
-    consts = dict(Record="TRUE")
-    if not ctx.quick:
-        consts.update(MaxK=5, Extra="Allowances", Bound3=14, Bound4=8, Bound5=4)
-    res = vlib.run_tlc(ctx, "MC_RunLength", "MC_RunLengthScore", workers=vlib.NCPU, timeout=1500, consts=consts, xmx="6g")
+    cfg = "MC_RunLengthScore" if ctx.quick else "MC_RunLengthScoreT"     # thorough: all six allowances, larger bounds, k <= 5
+    res = vlib.run_tlc(ctx, "MC_RunLength", cfg, workers=vlib.NCPU, timeout=1500, xmx="6g")
     blocks = vlib.tlc_printed(res)
     fam = vlib.tlc_printed(res, tag="FAM")
     if not blocks or len(fam) != 1:
